@@ -200,6 +200,25 @@ def replay_kernel(c: Contract, obligation: str, model: dict):
                 info.update(native_inputs=_jsonable(nat2), native_result=_jsonable(r2), reproduced=True,
                             reason="the real function returns a non-finite value at this corner of the contract's domain (exp overflow)")
                 return info
+    if ":strict#" in obligation:
+        # branch-insensitive definedness: an undefined value in an UNSELECTED branch of a where poisons the derivative
+        # (0 * nan): replay = reverse-mode derivative of the real function at the model, w.r.t. every float leaf
+        try:
+            call = (lambda kw: getattr(inst, fn.__name__)(**kw)) if is_method else ((lambda kw: getattr(owner, fn.__name__)(**kw)) if owner is not None else (lambda kw: getattr(importlib.import_module(fn.__module__), fn.__name__)(**kw)))
+            import jax.numpy as rjnp
+            flt = {k: v for k, v in nat.items() if _is_float_tree(v)}
+            rest = {k: v for k, v in nat.items() if k not in flt}
+
+            def scalar(fl):
+                leaves = jax.tree_util.tree_leaves(call({**rest, **fl}))
+                return sum(rjnp.sum(rjnp.asarray(l, dtype=float)) for l in leaves)
+            g = jax.grad(scalar)(jax.tree_util.tree_map(lambda v: rjnp.asarray(v, dtype=float), flt))
+            info["native_gradient"] = _jsonable(g)
+            if not _all_finite(g):
+                info.update(reproduced=True, reason="the value is finite but jax.grad of the real function is non-finite at this input (an undefined value in an unselected branch)")
+                return info
+        except Exception as e:
+            info["native_gradient_error"] = f"{type(e).__name__}: {e}"
     part = obligation.split(":", 1)[1] if ":" in obligation else obligation
     ens = None
     for name, e in c.ensures.items():
@@ -219,6 +238,12 @@ def replay_kernel(c: Contract, obligation: str, model: dict):
         return info
     info.update(reproduced=not ok, reason="postcondition evaluated on the native float64 result (relative slack 1e-9): " + ("violated" if not ok else "holds within rounding"))
     return info
+
+
+def _is_float_tree(v):
+    import jax
+    leaves = jax.tree_util.tree_leaves(v)
+    return bool(leaves) and all(isinstance(l, (float, np.floating)) or (hasattr(l, "dtype") and np.issubdtype(np.asarray(l).dtype, np.floating)) for l in leaves)
 
 
 def _consts_like(a, nat):
